@@ -14,6 +14,8 @@ Monitor clauses judged directly on the implementation's line:
   * `accept`       a side accepts ⇔ the peer's public value is acceptable and its work meets
                    `min bits 24` leading zero bits of SHA-256 over the handshake preimage
   * `ident`        a node's scalar lies in [2, p−2] and its public value is `g^scalar mod p`
+  * `seed-identity` the public key of a node configured with an identity seed is a function of the seed: equal for two
+                   nodes with the same seed, equal to `computePublic (scalarOfSeed seed)` and to what the CLI derives
   * `key-stale`    (histories) after every accepted handshake the held key is the one derived from the
                    public keys of THAT handshake — also the n-th for a peer id (`C12.key_replaced`)
   * `modexp`, `public`  equal to `b^e mod m` / `g^a mod p` (through the model, proved equal: `modexp_spec`)
@@ -188,17 +190,29 @@ def stepPure (tok : List String) (impl : Option String) : Unit × String × Stri
       if k.length != 32 then bad else
       let out := hexB (hmac k m); ((), out, "ok")
     | _, _ => bad
-  | ["ident", _seed] =>
-    match impl with
-    | none => ((), "scalar=? pub=?", "ok")
-    | some i =>
-      match natField i "scalar", natField i "pub" with
-      | some s, some p =>
-        let okRange := decide (2 ≤ s ∧ s ≤ Spec.Kex.p - 2)
-        let okPub := computePublic s == p
-        ((), s!"scalar={s} pub={computePublic s}",
-          if !okRange then "viol:ident:scalar outside [2, p-2]" else if !okPub then "viol:ident:public is not g^scalar mod p" else "ok")
-      | _, _ => ((), "scalar=? pub=?", "viol:ident:malformed")
+  | ["ident", seed] =>
+    match seed.toNat? with
+    | none => bad
+    | some seed =>
+      -- the identity of a seeded node is a function of the seed: the scalar the code's generator draws from it
+      let s := scalarOfSeed (u32 seed)
+      let p := computePublic s
+      let cliShown := if (impl.bind (field · "cli")) == some "?" then "?" else toString p
+      let out := s!"scalar={s} pub={p} again={p} cli={cliShown}"
+      let verdict := match impl with
+        | none => "ok"
+        | some i =>
+          match natField i "scalar", natField i "pub", natField i "again" with
+          | some is, some ip, some ia =>
+            if !(decide (2 ≤ is ∧ is ≤ Spec.Kex.p - 2)) then "viol:ident:scalar outside [2, p-2]"
+            else if computePublic is != ip then "viol:ident:public is not g^scalar mod p"
+            else if ia != ip then "viol:seed-identity:two nodes with the same identity seed have different public keys"
+            else if ip != p then s!"viol:seed-identity:public key is not the one derived from the seed (expected {p})"
+            else if field i "cli" != some "?" && natField i "cli" != some ip then
+              "viol:seed-identity:the CLI derives another public key from the same seed"
+            else "ok"
+          | _, _, _ => "viol:ident:malformed"
+      ((), out, verdict)
   | ["hsk", sA, idA, bitsA, sB, idB, bitsB] =>
     match sA.toNat?, bitsA.toNat?, sB.toNat?, bitsB.toNat? with
     | some sA, some bitsA, some sB, some bitsB =>
